@@ -8,11 +8,11 @@ ASSUMPTIONS = ["the order relation of the property leaves ties and the placement
 
 def run(ctx):
     for i in range(ctx.budget(220, 3000)):
-        s = Subject(ctx, maxlen=5)
+        s = Subject(ctx, maxlen=5, p_big=(0.3 if i % 4 == 0 else 0.0))
         ops_nf.case_sort(ctx, s)
         if i % 10 == 0:
             ops_nf.case_sort_refusal(ctx, s)
         if i % 6 == 0:
             ops_nf.case_sort(ctx, s, nest_name="my nest")
         if i % 5 == 0:
-            ops_frame.case_row_moves(ctx, s)
+            ops_frame.case_row_moves(ctx, Subject(ctx))   # (no huge ints: the element view shows them as floats)
